@@ -15,7 +15,7 @@ PROPERTY_ID = 'C16'
 LEVEL = 'exploration'
 S = ps.ProcessState
 PID = 'p77'
-PROGS = [programs.P0, programs.P1, programs.P2, programs.P3]
+PROGS = [programs.P0, programs.P1, programs.P2, programs.P3, programs.P10]
 M_PAUSE, M_PLAY, M_KILL, M_STATUS, B_PAUSE, B_PLAY, B_KILL = range(7)
 MNAMES = ['rpc pause', 'rpc play', 'rpc kill', 'rpc status', 'broadcast pause_all', 'broadcast play_all', 'broadcast kill_all']
 HANDLER = {M_PAUSE: 'pause', M_PLAY: 'play', M_KILL: 'kill', B_PAUSE: 'pause', B_PLAY: 'play', B_KILL: 'kill'}
@@ -312,8 +312,8 @@ def shards(tier):
 
 BOUNDS = {
     'quick': dict(messages='K = 2 control messages over ' + str(MNAMES) + f' at gaps 0..5 (programs P1 P2 P3); K = 1 at gaps 0..{NPOS}; a failing state-change broadcast (index 0..6, three tolerated exception kinds) alone or with one rpc kill/pause',
-                  programs='P0 P1 P2 P3', transport='kiwipy LocalCommunicator, bare or wrapped in plumpy LoopCommunicator', texts='symbolic str len <= 2'),
-    'thorough': dict(messages='K = 3', programs='P0 P1 P2 P3', transport='as quick', texts='fixed'),
+                  programs='P0 P1 P2 P3 P10', transport='kiwipy LocalCommunicator, bare or wrapped in plumpy LoopCommunicator', texts='symbolic str len <= 2'),
+    'thorough': dict(messages='K = 3', programs='P0 P1 P2 P3 P10', transport='as quick', texts='fixed'),
 }
 OUTSIDE = ['RabbitMQ and real threads (RemoteProcessThreadController is driven from the loop thread)', 'the coroutine-based RemoteProcessController', 'more than K messages',
            'exact twin comparison is required only for quiescent deliveries, as the property says; for in-step deliveries it is carried out when the delivery point can be matched']
